@@ -397,12 +397,28 @@ class KernelTarget:
             res['undecided'].append('contract target missing: CustomSD.correlation / eta_function')
             return res
         res['functions_extra'] += [describe(fc), describe(fe)]
-        env = {'w': w, 'tau': tau}
+        def envof(fd):
+            # the integration variable is the integrand's parameter; the time is its free plain name (whatever it is called:
+            # quad/integrand-at-caller-time proves that this free variable holds the caller's tau)
+            e = {'w': w, 'tau': tau}
+            if fd is None:
+                return e
+            params = [a.arg for a in fd.args.args]
+            if len(params) == 1:
+                e[params[0]] = w
+            stores = {n.id for n in ast.walk(fd) if isinstance(n, ast.Name) and isinstance(n.ctx, ast.Store)}
+            free = sorted({n.id for n in ast.walk(fd) if isinstance(n, ast.Name) and isinstance(n.ctx, ast.Load)}
+                          - stores - set(params) - {'self', 'np', 'numpy', 'tau'} - set(dir(__import__('builtins'))))
+            if len(free) == 1 and 'tau' not in {n.id for n in ast.walk(fd) if isinstance(n, ast.Name)}:
+                e[free[0]] = tau
+            return e
         try:
-            kc0 = cas.kernel_branches(nested_function(fc, 'integrand', 0), env)['plain']
-            kc = cas.kernel_branches(nested_function(fc, 'integrand', 1), env)
-            ke0 = cas.kernel_branches(nested_function(fe, 'integrand', 0), env)['plain']
-            ke = cas.kernel_branches(nested_function(fe, 'integrand', 1), env)
+            fds = [nested_function(fc, 'integrand', 0), nested_function(fc, 'integrand', 1),
+                   nested_function(fe, 'integrand', 0), nested_function(fe, 'integrand', 1)]
+            kc0 = cas.kernel_branches(fds[0], envof(fds[0]))['plain']
+            kc = cas.kernel_branches(fds[1], envof(fds[1]))
+            ke0 = cas.kernel_branches(fds[2], envof(fds[2]))['plain']
+            ke = cas.kernel_branches(fds[3], envof(fds[3]))
         except (cas.NotTranslatable, KeyError, TypeError, AttributeError) as e:
             res['undecided'].append('unsupported construct in integrand: %s' % e)
             return res
